@@ -230,6 +230,8 @@ func (fx *FX) heapAllocFacts(srt Sort, c string, n0 string, guard string) {
 	if !ok || k != SRef {
 		return
 	}
+	// (no caching per heap version: objects created by a callee live in unwritten versions, and their cells become
+	// known-allocated only through the emission that follows the call)
 	before := len(fx.ctx.asserts)
 	defer func() {
 		if guard != "true" {
